@@ -209,6 +209,35 @@ def confront(case, res, periods, rng):
             out.append(("export", "statistics re-read from the exported JSON file differ from the in-memory statistics"))
         if int(st["max_drawdown_duration"]) != int(dd_dur) or not _eqnan(float(st["max_drawdown"]), float(dd_max)):
             out.append(("reporters", "JSONStatistics max drawdown / duration differ from create_drawdowns"))
+        # (e') the benchmark block: the same curve passed as `benchmark_curve` of ANOTHER strategy (a different curve
+        # of another length) must be given exactly the numbers it gets as a strategy, in memory and in the export
+        other = df.iloc[::-1].copy()
+        other.index = df.index
+        if n > 2:
+            other = other.iloc[1:]
+        fd, fn = tempfile.mkstemp(prefix="qsv-stat-", suffix=".json")
+        os.close(fd)
+        try:
+            jb = JSONStatistics(other[["Equity"]].copy(), pd.DataFrame({"A": [0.5] * len(other)}, index=other.index), periods=periods,
+                                output_filename=fn, benchmark_curve=df[["Equity"]].copy(), benchmark_id="bm", benchmark_name="benchmark")
+            jb.to_file()
+            with open(fn) as fh:
+                bback = json.load(fh)
+        finally:
+            os.remove(fn)
+        bm = jb.statistics.get("benchmark")
+        if bm is None:
+            out.append(("benchmark", "no benchmark block although a benchmark curve was supplied"))
+        else:
+            need = ("returns", "cum_returns", "drawdowns", "max_drawdown", "max_drawdown_duration", "cagr", "sharpe", "sortino",
+                    "mean_returns", "stdev_returns")
+            diff = [k for k in need if k not in bm] + [k for k in bm if k in st and not _same_json(_plain(bm[k]), _plain(st[k]))]
+            if diff:
+                k0 = diff[0]
+                out.append(("benchmark", "as a benchmark the curve is reported %s = %s, as a strategy %s (differing: %s)" % (
+                    k0, str(_plain(bm.get(k0)))[:80], str(_plain(st[k0]))[:80], diff)))
+            elif not _same_json(_plain(bm), bback.get("benchmark")):
+                out.append(("export", "benchmark statistics re-read from the exported JSON file differ from the in-memory ones"))
         # (f) scale invariance
         k = rng.choice([3.0, 0.5, 1000.0])
         st2, _b2, _t2, _d2 = stats_for(k)
